@@ -2362,10 +2362,13 @@ fn tsne<F: Fl>(ctx: &Ctx, fam: &'static str) {
                 &|p| p.transform(bad_x.clone()),
             ));
         }
-        tri!(judge_entry::<P<F>, Array2<F>, TSneError>(
+        // the dataset entry point: a valid builder has to behave like its checked form in everything
+        // the resulting dataset carries (embedding, sample weights)
+        let wts = ndarray::Array1::<f32>::from_shape_fn(n, |i| 0.5 + (i % 3) as f32);
+        tri!(judge_entry::<P<F>, (Array2<F>, Vec<f32>), TSneError>(
             c, b, "transform-dataset", &chk, &make_t,
-            &|p| p.transform(DatasetBase::from(x.clone())).map(|d| d.records),
-            &|p| p.transform(DatasetBase::from(x.clone())).map(|d| d.records),
+            &|p| p.transform(DatasetBase::from(x.clone()).with_weights(wts.clone())).map(|d| (d.records, d.weights.to_vec())),
+            &|p| p.transform(DatasetBase::from(x.clone()).with_weights(wts.clone())).map(|d| (d.records, d.weights.to_vec())),
             &eq_any, run_valid,
         ));
         if !chk.ok {
